@@ -756,6 +756,11 @@ func (cl *cluster) enabled() []string {
 					out = append(out, fmt.Sprintf("Resize:grow:%d", m))
 				}
 			}
+		case "Grow0": // a grow by one block with no injected failure
+			if len(v.Backends) == 0 || cl.nResizes >= 1 {
+				continue
+			}
+			out = append(out, "Resize:grow:0")
 		case "Tick", "TickF", "TickK", "TickS":
 			if cl.nTicks >= 3 || (t != "Tick" && !faultsLeft(1)) {
 				continue
